@@ -125,6 +125,10 @@ class ReqWorld(World):
         self.controller_menu = (
             [("I", k[0], vid) + tuple(k[1:]) for vid in vids for k in per_vehicle] if controller else []
         )
+        # C09 atomicity on this world: the whole menu plus targets that do not exist and pooling plans that are empty / name no such request
+        self.atomic_menu = [("I", k[0], vid) + tuple(k[1:]) for vid in vids for k in per_vehicle] + [
+            e for vid in vids for e in (("I", "DispatchTrip", vid, "nope"), ("I", "Pool", vid), ("I", "Pool", vid, "nope:P", "nope:D"))]
+        self.atomic_pairs = False
         # idle_duration is never read within the horizon (time-out far beyond it): drop it from the key
         self._idle_clip = 0
         self._start_hv = {}
